@@ -439,3 +439,50 @@ def run(index, rep, tier):
         rep.check(bad is None, "R02.14", ts.qualname, "tokens skipped before the tree description is handed over", fn_where(ts, bad), "_parse_tree_statement: one token read between `=` and the Newick parser",
                   "NexusReader._parse_tree_statement loops over tokens (`%s`) before handing over to the Newick parser: a TREE statement whose description does not begin with the token the loop waits for - `TREE 1 = 'beta gamma':3.5;`, a single-node tree - is swallowed, and the next statement's parentheses are attached to its name (a list of a single-node tree and an ordinary tree reads back as one tree)" % (norm_stmt(bad)[:60] if bad is not None else ""))
         rep.ob("R02.14", fn_where(ts), "_parse_tree_statement: %d loops before the hand-off examined" % nl, True)
+
+    # ---- R02.15 inside quotes every character is the label's own
+    with rep.section("R02.15"):
+        rep.rule("R02.15", "inside quotes every character is the label's own: in the quoted-token branch of Tokenizer._next_token_or_none (a) what is appended to the token is the current character of the document (or the quote character for a doubled quote) - never a constant; (b) the current character is never overwritten; (c) the loop consults no character class - it compares the current character with the end of input and with the opening quote only. The writers put a label with a blank, tab or line end inside quotes precisely so that it comes back as written")
+        tkn = index.function("dendropy.dataio.tokenizer.Tokenizer._next_token_or_none")
+        qb = [st for st in walk_no_nested(tkn.node) if isinstance(st, ast.If) and "self.quote_chars" in norm(st.test)]
+        if len(qb) != 1:
+            raise AnalysisError("R02.15: the quoted-token branch of Tokenizer._next_token_or_none not recognised")
+        body = qb[0].body
+        loops = [l for st in body for l in ast.walk(st) if isinstance(l, ast.While)]
+        if len(loops) != 1:
+            raise AnalysisError("R02.15: the quoted-token loop not recognised")
+        loop = loops[0]
+        qnames = {t.id for st in body if isinstance(st, ast.Assign) and norm(st.value) == "self._cur_char" for t in st.targets if isinstance(t, ast.Name)}
+        n15 = 0
+        for x in ast.walk(loop):
+            if isinstance(x, ast.Call) and isinstance(x.func, ast.Attribute) and x.func.attr in ("append", "write", "extend", "insert") and x.args:
+                n15 += 1
+                v = x.args[-1]
+                ok_ = norm(v) == "self._cur_char" or (isinstance(v, ast.Name) and v.id in qnames)
+                rep.check(ok_, "R02.15", tkn.qualname, "quoted token gets `%s` instead of the document's character" % norm(v)[:30], fn_where(tkn, x), "quoted token: `%s` appends the document's own character" % norm(x)[:50],
+                          "Tokenizer._next_token_or_none appends `%s` to a QUOTED token: inside quotes a label's characters are literal - a tab, a line end or a run of blanks that the writer protected with the quotes comes back as something else (`'Homo<TAB>sapiens'` read as `Homo sapiens`), so the label no longer finds its taxon" % norm(v)[:40])
+            if isinstance(x, (ast.Assign, ast.AugAssign)):
+                for t in (x.targets if isinstance(x, ast.Assign) else [x.target]):
+                    if norm(t) == "self._cur_char":
+                        n15 += 1
+                        rep.check(False, "R02.15", tkn.qualname, "current character overwritten inside quotes", fn_where(tkn, x), "",
+                                  "Tokenizer._next_token_or_none overwrites the current character (`%s`) while inside a quoted token: quoted text is literal" % norm_stmt(x)[:50])
+        g15 = cfg_of(tkn)
+        for nd in g15.nodes:
+            if nd.kind == "test" and nd.stmt is not None and any(nd.stmt is y for y in ast.walk(loop)) and "self._cur_char" in norm(nd.ast):
+                n15 += 1
+                e_ = nd.ast
+                plain = False
+                if isinstance(e_, ast.Compare) and len(e_.ops) == 1 and isinstance(e_.ops[0], (ast.Eq, ast.NotEq)):
+                    sides = [e_.left, e_.comparators[0]]
+                    oth = [s_ for s_ in sides if norm(s_) != "self._cur_char"]
+                    plain = len(oth) == 1 and ((isinstance(oth[0], ast.Constant) and oth[0].value == "") or (isinstance(oth[0], ast.Name) and oth[0].id in qnames))
+                rep.check(plain, "R02.15", tkn.qualname, "character class consulted inside quotes: " + norm(e_)[:40], fn_where(tkn, nd.stmt), "quoted token: `%s` compares with end of input / the quote only" % norm(e_)[:40],
+                          "Tokenizer._next_token_or_none tests `%s` while inside a quoted token: within quotes no character is special except the quote itself - a class test here drops, replaces or ends the token on characters (blank, tab, line end, bracket) that the writer put inside quotes to protect them" % norm(e_)[:50])
+        rep.floor("R02.15", "appends and character tests in the quoted-token loop", 4, n15)
+
+    # ---- R02.16 the writers' traversals do not recurse on depth
+    with rep.section("R02.16"):
+        rep.rule("R02.16", "the traversals the writers walk a tree with do not recurse on depth (C07 R07.11): Node.preorder_iter / postorder_iter / levelorder_iter / leaf_iter contain no call of the same method on another node - the NeXML writer emits nodes and edges through preorder_node_iter, so a recursive generator makes a ladder tree of a thousand leaves unwritable (RecursionError) although the format and the reader take it")
+        nb = borrow(index, rep, "C07", {"R07.11"}, "R02.16")
+        rep.floor("R02.16", "borrowed obligations", 2, nb)
